@@ -264,7 +264,7 @@ class C06(Prop):
 class C07(Prop):
     pid = "C07"
     module = "TrVerif.Props.C07"
-    streams = [("sparse", 3), ("dense", 1), ("hours", 2), ("xfer", 1), ("overlap", 1)]
+    streams = [("sparse", 3), ("dense", 1), ("hours", 4), ("xfer", 1), ("overlap", 1)]
     rule = ("route, alternatives and accessibility requests that yield no route; each of the eight reasons is aimed at (tight access/egress "
             "maxima, late/early requests, tight max_travel_time, first-wait cap); non-trivial = a no_routing_found answer; distinct (dataset, request)")
 
@@ -408,6 +408,8 @@ class C10(Prop):
         rs = []
         for _ in range(3):
             q = gen.gen_query(rng, d, cap=rng.choice([0, 0, None]))
+            if rng.random() < 0.5:      # limits below the 30 min floor of the alternatives' own window
+                q["max_travel_time"] = rng.choice([300, 450, 600, 750, 900, 1200, 1500, 1700])
             qa = dict(q); qa["alternatives"] = rng.choice(["1", "true"])
             rs.append(("route", q)); rs.append(("route", qa))
         return rs
